@@ -54,11 +54,31 @@ def risk_csv_path():
         name = "USD Coin" if sym == "USDC" else sym
         rows.append(["0x0", name, sym, 18, ltv, lt, bonus, 1000, coll, borrow, 9 * 10**26, 9 * 10**25, 4 * 10**26, 0, 10**9, 10**9,
                      True, True])
-    fd, path = tempfile.mkstemp(prefix="verif-aave-risk-", suffix=".csv", dir=os.getcwd())
-    os.close(fd)
+    path = _risk_file_name()  # the decoy of this process had ITS parameters in a file of this very name before (see _decoy_once)
     pd.DataFrame(rows, columns=cols).to_csv(path, index=False)
     _RISK_PATH[0] = path
+    _editor_once(path)
     return path
+
+
+def _risk_file_name():
+    return os.path.join(os.getcwd(), f"verif-aave-risk-{os.getpid()}.csv")
+
+
+_EDITOR = [False]
+
+
+def _editor_once(path):
+    """A what-if study on a throw-away market built from the SAME parameter file: its risk parameters are edited in place (that market's own table) and the
+    market is discarded. Markets built from the file afterwards have the file's parameters."""
+    if _EDITOR[0]:
+        return
+    _EDITOR[0] = True
+    m = AaveV3Market(MarketInfo("aave-what-if", MarketTypeEnum.aave_v3), path, list(TOKENS))
+    rp = m.risk_parameters
+    for col in ("liqThereshold", "LTV", "liqBonus", "reserveLiquidationThreshold", "baseLTVasCollateral", "reserveLiquidationBonus"):
+        if col in rp.columns:
+            rp[col] = rp[col] * type(rp[col].iloc[0])("0.5")
 
 
 def risk(sym):
@@ -125,8 +145,7 @@ def _decoy_once():
     for sym, (coll, ltv, lt, bonus, borrow) in RISK.items():
         rows.append(["0x0", "USD Coin" if sym == "USDC" else sym, sym, 18, max(ltv - 1700, 0) if ltv else 5000, max(lt - 1300, 0) if lt else 5500, bonus + 400, 1000, True, True,
                      9 * 10**26, 9 * 10**25, 4 * 10**26, 0, 10**9, 10**9, True, True])
-    fd, path = tempfile.mkstemp(prefix="verif-aave-risk-decoy-", suffix=".csv", dir=os.getcwd())
-    os.close(fd)
+    path = _risk_file_name()  # the same file name the real parameters are written to afterwards: the file's CONTENT changes between two constructions
     pd.DataFrame(rows, columns=cols).to_csv(path, index=False)
     try:
         frames = make_data(2)
